@@ -184,6 +184,7 @@ type uEnv struct {
 	failInjected bool            // the transport-side RTCP writer fails every write the chain originates
 	failStreams  map[uint32]bool // local streams whose transport-side RTP writer always fails
 	parkRTCP     atomic.Pointer[chan struct{}] // non-nil: every transport-side RTCP write parks until the channel is closed
+	rtcpBusy     atomic.Int32    // RTCP writes currently inside a slow / parked transport
 	slowRTCP     atomic.Int64    // nanoseconds the transport-side RTCP writer takes per write (0: returns at once)
 	reuseHdr     *rtp.Header     // C13, reused run: the one header object the application writes all its packets from
 	bindGen      map[uint32]int  // how many transport-side RTP writers have been handed out per local stream (under mu)
@@ -596,6 +597,8 @@ func (e *uEnv) wireRTCP() interceptor.RTCPWriter {
 		}
 		closedAtEntry, late := false, park != nil || slow > 0
 		if late {
+			e.rtcpBusy.Add(1) // a write of the chain's own is inside the (slow) transport: Close returns only after it
+			defer e.rtcpBusy.Add(-1)
 			e.mu.Lock()
 			closedAtEntry = e.closed
 			e.mu.Unlock()
@@ -1024,6 +1027,9 @@ func uRunX(t *testing.T, sc *uScript, out *vfWriter, scribble, quiet bool, rb *u
 		case "close":
 			var cerr error
 			blocked, pan = uGuard(limit, func() { cerr = chain.Close() })
+			if !blocked && e.parkRTCP.Load() == nil { // (a parked write is the application's own: not the chain's business)
+				ev["busy"] = e.rtcpBusy.Load() > 0 // a goroutine of the chain is still inside the RTCP transport
+			}
 			if !blocked {
 				e.mu.Lock()
 				e.closed = true
@@ -1434,6 +1440,9 @@ func uRunX(t *testing.T, sc *uScript, out *vfWriter, scribble, quiet bool, rb *u
 				sub.W += st.W
 				sub.ID += st.ID
 				r := exec(&sub)
+				if r["busy"] == true { // (a Close inside the sequence came back while the chain was still inside the transport)
+					ev["busy"] = true
+				}
 				if r["blocked"] == true {
 					blocked = true
 					ev["stack"] = r["stack"]
@@ -1481,6 +1490,9 @@ func uRunX(t *testing.T, sc *uScript, out *vfWriter, scribble, quiet bool, rb *u
 			}
 			wg.Wait()
 			for _, r := range res {
+				if r["busy"] == true {
+					ev["busy"] = true
+				}
 				if r["blocked"] == true {
 					blocked = true
 				}
